@@ -11,7 +11,7 @@ use serde::{Deserialize, Serialize};
 use crate::engine::*;
 use crate::matcher::{with_cram_maker, with_maker};
 
-const ALPHA: &[char] = &['a', 'b', 'c', '1', 'é', ' ', '.', '|', '*', '-'];
+const ALPHA: &[char] = &['a', 'b', 'c', '1', 'é', ' ', '.', '|', '*', '-', '$', '^'];
 
 fn strip_one_newline(line: &[u8]) -> &[u8] {
     if line.ends_with(b"\n") {
@@ -456,6 +456,10 @@ fn check_glob(c: &GlobCase) -> V {
 #[derive(Clone, Debug, Serialize, Deserialize)]
 pub enum Ast {
     Empty,
+    /// `^` / `$` written by the user (redundant with the implicit whole-line anchoring, but legal
+    /// anywhere, e.g. inside one alternative)
+    Bol,
+    Eol,
     Lit(char),
     Any,
     Digit,
@@ -479,6 +483,8 @@ impl Ast {
     pub fn render(&self) -> String {
         match self {
             Ast::Empty => String::new(),
+            Ast::Bol => "^".into(),
+            Ast::Eol => "$".into(),
             Ast::Lit(c) => {
                 if META.contains(c) && *c != '-' {
                     format!("\\{c}")
@@ -545,6 +551,7 @@ impl Ast {
     fn interesting(&self) -> bool {
         match self {
             Ast::Empty | Ast::Lit(_) => false,
+            Ast::Bol | Ast::Eol => true,
             Ast::Any | Ast::Digit | Ast::Class { .. } | Ast::Alt(_) | Ast::Rep { .. } => true,
             Ast::Cat(v) => v.iter().any(|a| a.interesting()),
             Ast::Group { inner, .. } => inner.interesting(),
@@ -555,6 +562,8 @@ impl Ast {
     fn m(&self, s: &[char], i: usize, k: &mut dyn FnMut(usize) -> bool) -> bool {
         match self {
             Ast::Empty => k(i),
+            Ast::Bol => i == 0 && k(i),
+            Ast::Eol => i == s.len() && k(i),
             Ast::Lit(c) => i < s.len() && s[i] == *c && k(i + 1),
             Ast::Any => i < s.len() && s[i] != '\n' && k(i + 1),
             Ast::Digit => i < s.len() && s[i].is_ascii_digit() && k(i + 1),
@@ -611,7 +620,7 @@ impl Ast {
     /// sample a member of the language (None if a negated class excludes the whole alphabet)
     fn sample(&self, seeds: &mut dyn Iterator<Item = u16>, out: &mut String) -> Option<()> {
         match self {
-            Ast::Empty => {}
+            Ast::Empty | Ast::Bol | Ast::Eol => {}
             Ast::Lit(c) => out.push(*c),
             Ast::Any => out.push(ALPHA[pick_idx(seeds.next()?, ALPHA.len())]),
             Ast::Digit => out.push('1'),
@@ -699,10 +708,25 @@ fn ast_strategy() -> BoxedStrategy<Ast> {
             1 => (inner, any::<bool>()).prop_map(|(a, capturing)| Ast::Group { inner: Box::new(a), capturing }),
         ]
     });
-    // alternation at the very top in 40% of the cases
-    prop_oneof![
+    // alternation at the very top in 40% of the cases; user-written anchors around the whole
+    // expression or around single alternatives
+    let top = prop_oneof![
         3 => tree.clone(),
-        2 => vec(tree, 2..4).prop_map(Ast::Alt),
+        2 => vec(tree.clone(), 2..4).prop_map(Ast::Alt),
+    ];
+    prop_oneof![
+        6 => top.clone(),
+        1 => top.clone().prop_map(|a| match a {
+            // `^a|b$`: the anchors bind to the first and the last alternative
+            Ast::Alt(mut v) => {
+                let n = v.len();
+                v[0] = Ast::Cat(vec![Ast::Bol, v[0].clone()]);
+                v[n - 1] = Ast::Cat(vec![v[n - 1].clone(), Ast::Eol]);
+                Ast::Alt(v)
+            }
+            other => Ast::Cat(vec![Ast::Bol, other, Ast::Eol]),
+        }),
+        1 => top.prop_map(|a| Ast::Cat(vec![Ast::Bol, a, Ast::Lit('$')])),
     ]
     .boxed()
 }
